@@ -307,6 +307,7 @@ int main(int argc, char **argv) {
   coap_set_log_level(getenv("DRV_DEBUG") ? COAP_LOG_DEBUG : COAP_LOG_EMERG);
   sim_trace_io = 0;
   sim_extra_events = extra_events;
+  sim_nested_wait = 1;             /* a client session that is made to act before the peer's CSM waits for it (coap_client_delay_first): in virtual time */
   scap = 1 << 20;
   stream = malloc(scap);
   while (fgets(line, sizeof(line), in)) {
